@@ -439,6 +439,9 @@ let run_lr tk =
 
 (* every word of every star-free rule of the rule table translated from lexer.l (keyword spellings) *)
 let run_spellings () =
+  (* the spellings of the DOCUMENTED table first (they are what the property promises), then those of the rule list
+     translated from lexer.l now (a spelling that was added must be tokenised as the documentation says, too) *)
+  L.iter (fun (r, _) -> if SpecLex.star_free r then L.iter (fun w -> pr "%s " (hexs w)) (SpecLex.lang r)) SpecLex.spec_rules;
   L.iter (fun (r, _) -> if SpecLex.star_free r then L.iter (fun w -> pr "%s " (hexs w)) (SpecLex.lang r)) Gen_Lexer.rules
 
 (* the scanner of the DOCUMENTED token table (SpecLex.spec_rules), not of the rule list translated from lexer.l *)
